@@ -351,6 +351,15 @@ Definition mock_spec (o : opts) (needs_api : bool) (added : list attr) : Prop :=
   List.length (filter is_mockall_attr added) <= 1 /\
   (forall a, In a added -> is_mock_attr a = true -> fst (ungate a) = negb (export_value o)).
 
+Lemma mock_spec_unfold o needs_api added :
+  mock_spec o needs_api added <->
+  (existsb is_unimock_attr added = unimock_value o && (negb needs_api || is_some (o_mock_api o)) /\
+   existsb is_mockall_attr added = mockall_value o /\
+   List.length (filter is_unimock_attr added) <= 1 /\
+   List.length (filter is_mockall_attr added) <= 1 /\
+   (forall a, In a added -> is_mock_attr a = true -> fst (ungate a) = negb (export_value o))).
+Proof. reflexivity. Qed.
+
 Lemma existsb_filter {A} (p : A -> bool) l : existsb p l = match filter p l with [] => false | _ => true end.
 Proof. induction l as [|x l IH]; [reflexivity|]. simpl. destruct (p x); [reflexivity | exact IH]. Qed.
 
@@ -452,4 +461,73 @@ Proof.
     unfold view_C10, good, fn_opts. cbn [x_input x_attr x_variant]. rewrite parts_mod, Ha. cbn [decided v_app v_det v_holds].
     intros _. split; [reflexivity|]. rewrite t_attrs_gen_trait_def.
     apply (c10_core_fn _ TPlain). apply no_clash_spec. exact Hc.
+Qed.
+
+(** exactly when the view's check passes on a fn / mod expansion: no generated mock attribute that is not a
+    sub-attribute is also written, token for token, by the user *)
+Definition c10_stolen (added user : list attr) : bool :=
+  existsb (fun a => is_mock_attr a && negb (is_trait_sub a) && existsb (toks_eqb a) user) added.
+
+Lemma filter_single_count (p : attr -> bool) a l : filter p l = [a] -> cnt l a = 1.
+Proof.
+  intros E. assert (Pa : p a = true) by (assert (H : In a (filter p l)) by (rewrite E; left; reflexivity); apply filter_In in H; apply H).
+  pose proof (count_filter p a l) as Hf. rewrite Pa, E in Hf. rewrite <- Hf.
+  apply (count_occ_cons_eq attr_eq_dec [] eq_refl).
+Qed.
+
+Lemma c10_fn_exact o mode im fns user :
+  let added := gen_added o TPlain mode im fns in
+  c10_ok o true (minus_attrs (added ++ filter is_trait_sub user) user) = negb (c10_stolen added user).
+Proof.
+  intros added. destruct (c10_stolen added user) eqn:S; cbn [negb].
+  - unfold c10_stolen in S. apply existsb_exists in S as (a & Ha & S).
+    apply andb_true_iff in S as [S Hu]. apply andb_true_iff in S as [Ma Sa]. apply negb_true_iff in Sa.
+    apply existsb_exists in Hu as (u & Hu & E). apply toks_eqb_eq in E. subst u.
+    set (R := minus_attrs (added ++ filter is_trait_sub user) user).
+    assert (Hle : forall x, cnt R x <= cnt added x) by (intros x; unfold R; rewrite count_added; lia).
+    assert (HR : cnt R a = cnt added a - cnt user a) by (unfold R; rewrite count_added, Sa; reflexivity).
+    apply (count_occ_In attr_eq_dec) in Hu.
+    unfold c10_ok. fold R.
+    unfold is_mock_attr in Ma. apply orb_true_iff in Ma as [Pa|Pa].
+    + assert (Hf : filter is_unimock_attr added = [a]).
+      { assert (Hin : In a (filter is_unimock_attr added)) by (apply filter_In; split; assumption).
+        unfold added in *. rewrite filter_unimock_added in *. unfold gen_unimock in *.
+        destruct (unimock_value o && negb (unimock_params_empty TPlain (o_mock_api o))); [|destruct Hin].
+        destruct Hin as [<-|[]]. reflexivity. }
+      pose proof (filter_single_count _ _ _ Hf) as H1.
+      destruct (filter_slot _ a added R Hle Hf) as [[_ ->]|[H2 _]]; [|lia].
+      unfold added in Hf. rewrite filter_unimock_added in Hf. unfold gen_unimock, unimock_params_empty in Hf.
+      destruct (unimock_value o), (o_mock_api o); try discriminate Hf. reflexivity.
+    + assert (Hf : filter is_mockall_attr added = [a]).
+      { assert (Hin : In a (filter is_mockall_attr added)) by (apply filter_In; split; assumption).
+        unfold added in *. rewrite filter_mockall_added in *. unfold gen_mockall in *.
+        destruct (mockall_value o); [|destruct Hin]. destruct Hin as [<-|[]]. reflexivity. }
+      pose proof (filter_single_count _ _ _ Hf) as H1.
+      destruct (filter_slot _ a added R Hle Hf) as [[_ ->]|[H2 _]]; [|lia].
+      unfold added in Hf. rewrite filter_mockall_added in Hf. unfold gen_mockall in Hf.
+      destruct (mockall_value o); try discriminate Hf. cbn [List.length Nat.eqb]. rewrite andb_false_r. reflexivity.
+  - apply (c10_core_fn o TPlain). intros u Hu Ha Mu.
+    destruct (is_trait_sub u) eqn:Su; [reflexivity|]. exfalso.
+    assert (T : c10_stolen added user = true); [|rewrite S in T; discriminate].
+    unfold c10_stolen. apply existsb_exists. exists u. split; [exact Ha|]. rewrite Mu, Su. cbn [negb andb].
+    apply existsb_exists. exists u. split; [exact Hu | apply toks_eqb_refl].
+Qed.
+
+(** a concrete expansion of the model on which [view_C10] evaluates to "violated":
+    [#[entrait(Foo, mockall)] #[cfg_attr(test, ::mockall::automock)] fn foo(deps: &impl A) {}] *)
+Definition c10_cx_attr : toks := [TId "Foo"%string; comma; TId "mockall"%string].
+Definition c10_cx_input : input :=
+  InFn (mkHead [[TId "cfg_attr"%string; TG Paren ([TId "test"%string; comma] ++ abs_path ["mockall"%string; "automock"%string])]]
+               [] false false)
+       (mkSig false false false None "foo"%string no_generics
+              (mkP [ArgTyped [] (PIdent false false "deps"%string []) (TyRef None false (TyImpl false [[TId "A"%string]]))] false)
+              None None)
+       [TG Brace []].
+
+Lemma c10_view_counterexample :
+  exists items, expand_items VEntrait c10_cx_attr c10_cx_input = Ok items /\
+                ~ good (view_C10 (mkCtx VEntrait c10_cx_attr c10_cx_input) items).
+Proof.
+  eexists. split; [vm_compute; reflexivity|]. intros G. unfold good in G.
+  vm_compute in G. destruct (G eq_refl) as [_ F]. discriminate F.
 Qed.
